@@ -35,7 +35,10 @@ def allIds (a b : St) : List Nat := (ids a.ents ++ ids b.ents ++ a.kv.map (·.1)
 def judge : Judge := fun pre op obs =>
   if !obs.complete then [] else
   let txt := SwV.Spec.C18.opText op
-  let name := SwV.Spec.C18.opName op
+  -- a delete that was told NOT to delete data is a different call-site contract (metadata only)
+  let name := match op with
+    | .delete _ _ _ false => "delete-meta-only"
+    | _ => SwV.Spec.C18.opName op
   let post := obs.post
   let hs := allIds pre post
   -- blame the operation that breaks an identity that was consistent before it
